@@ -3,6 +3,7 @@ CONSTANT N = 3
 CONSTANT Gen = FALSE
 CONSTANT KMin = 0
 CONSTANT KMax = 99
+CONSTANT InputPhase = FALSE
 CHECK_DEADLOCK FALSE
 INVARIANT TypeOK
 INVARIANT TargetsInv
